@@ -55,6 +55,12 @@ func ToVal(v *ref.V) *val.Val {
 		}
 		p := ToVal(v.P)
 		return val.Just(p.Type, p)
+	case gen.KFun:
+		if v.Fn != nil {
+			if rv, ok := EnvFunVals[v.Fn.Tag]; ok {
+				return rv
+			}
+		}
 	}
 	panic("ToVal: unsupported " + v.T.String())
 }
